@@ -30,7 +30,8 @@ LEVEL_TEXT = ("Exploration: thousands of (tree, transform, centre mode) cases: r
               "and up to 1e3 away, roots stored at a position other than 0, coordinate axes and "
               "generic unit axes, angles 0, +-pi/2, pi, 2pi, 1e-3 and generic, anisotropic and <1 "
               "scales, instance reuse on a second tree, classmethod and composed forms. Held = held "
-              "on those executions.")
+              "on those executions."
+              "Scale factors include zero (flattening) and negative (mirror) values.")
 LEVEL_NOTE = ("Tolerance 3e-5*(1+largest coordinate magnitude) on float32 results (measured noise "
               "~1e-6 relative); rotation axes are unit vectors (the documented formula presumes "
               "|n| = 1).")
